@@ -114,7 +114,8 @@ pub fn items(progs: &[Program]) -> Vec<Item> {
             if body.trim().is_empty() || body.len() > MAX_ITEM_BYTES || body.lines().count() > MAX_ITEM_LINES {
                 continue;
             }
-            if body.contains("#![") || body.contains("rustfmt-") {
+            // CR: a file on disk and a text given to the session differ under newline_style=Auto (known finding F5a)
+            if body.contains("#![") || body.contains("rustfmt-") || body.contains('\r') {
                 continue;
             }
             let mut cfg = p.cfg.clone();
